@@ -31,6 +31,33 @@ KINDS = {
 SLACK = 4096
 REPEAT = 50
 
+# Surface forms of one protocol step.  The specification (Cow.tla) has ONE action per step kind
+# (set / opassign / pop / set2 / opassign2); every in-place-eligible statement form the property names
+# is a rendering of one of them, chosen by the statement's "var" field (default 0).  {v} is the
+# variable, {r} the row / field designator of a nested collection.
+VARIANTS = {
+    ("list", "set"): ["{v}[1] = 7", "{v}[-1] = 7", "{v}[1] += 1", "{v}[1] max= 3", "every {v}[1:3] = 7",
+                      "swap {v}[0], {v}[1]", "consume {v}[0]"],
+    ("list", "opassign"): ["{v} append= 7", "{v} ++= [7]", "{v} +.= 7", "{v} ++= [7, 8, 9]"],
+    ("list", "pop"): ["pop {v}", "remove {v}[-1]"],
+    ("dict", "set"): ["{v}[1] = 7", "{v}[1] += 1", "{v}[1] max= 3"],
+    ("dict", "opassign"): ["{v} |.= 1", "{v} ||= {{1: 2}}", "{v} -.= 99999", "{v} |.= 100001"],
+    ("vec", "set"): ["{v}[1] = 7", "{v}[1] += 1", "{v}[-1] = 7"],
+    ("vec", "opassign"): ["{v} append= 7", "{v} ++= V(7)"],
+    ("bytes", "set"): ["{v}[1] = 7", "{v}[1] += 1", "{v}[-1] = 7"],
+    ("bytes", "opassign"): ["{v} append= 7", "{v} ++= B[7]"],
+    ("*", "set2"): ["{v}[{r}][2] = 7", "{v}[{r}][2] += 1", "{v}[{r}][-1] = 7", "remove {v}[{r}][-1]", "pop {v}[{r}]"],
+    ("*", "opassign2"): ["{v}[{r}] append= 7", "{v}[{r}] ++= [7]", "{v}[{r}] +.= 7"],
+}
+
+
+def variants(kind, op):
+    return VARIANTS.get((kind, op)) or VARIANTS.get(("*", op)) or [None]
+
+
+def nvariants(kind, op):
+    return len(variants(kind, op))
+
 
 def render(stmt, kind, n, rows=3):
     eb, init, setf, opf, popf = KINDS[kind]
@@ -44,18 +71,22 @@ def render(stmt, kind, n, rows=3):
         if kind == "dict":
             return "%s := {%s}" % (v, ", ".join("%d: [0] ** %d" % (j, n) for j in range(rows)))
         return "%s := [%s]" % (v, ", ".join("[0] ** %d" % n for _ in range(rows)))
-    if op == "opassign2":
-        return "%s[%d] append= 7" % (v, stmt.get("i", 1) - 1)
+    if op == "field":
+        # a struct instance whose first field holds the collection (the declaration is part of the statement)
+        return "%s := (struct Foo (fa, fb); Foo([0] ** %d, 0))" % (v, n)
     if op == "alias":
         return "%s := %s" % (v, stmt["w"] + stmt["w"])
-    if op == "set":
-        return setf % v
-    if op == "set2":
-        return "%s[%d][2] = 7" % (v, stmt.get("i", 1) - 1)
-    if op == "opassign":
-        return opf % v
-    if op == "pop":
-        return (popf or "pop %s") % v
+    if stmt.get("times", 1) > 1:
+        body = {"opassign": "%s append= ii", "pop": "pop %s", "set": "%s[1] = ii"}[op] % v
+        return "for (ii <- 1 to %d) (%s)" % (stmt["times"], body)
+    if op in ("set", "opassign", "pop", "set2", "opassign2"):
+        forms = variants(kind, op)
+        if stmt.get("nested") and op == "set":
+            # the elements are rows: a swap would move a shared row to another slot, which the model's
+            # `set` step (it only makes the outer payload unique) does not follow
+            forms = [f for f in forms if not f.startswith("swap")]
+        row = "fa" if stmt.get("field") else str(stmt.get("i", 1) - 1)
+        return forms[stmt.get("var", 0) % len(forms)].format(v=v, r=row)
     raise ValueError(op)
 
 
@@ -98,6 +129,9 @@ def mc(rep, tier, wd):
             if kind != "list" and any(s["op"] == "pop" for s in seq):
                 continue
             n = 4000 if kind != "bytes" else 40000
+            # every surface form of the step gets its share of the replayed workloads
+            salt = len(cases)
+            seq = [dict(s, nested=nested_only, var=(salt // 3 + 7 * q) if q < len(seq) - 1 else salt) for q, s in enumerate(seq)]
             srcs = redeclare_safe([render(s, kind, n) for s in seq])
             growth = t["stmt"]["op"] in ("opassign", "opassign2")
             steps = [{"src": s} for s in srcs]
@@ -144,25 +178,45 @@ def drive(rep, tier, seed):
     nw = 40 if tier == "quick" else 400
     cases, plans = [], []
     for _ in range(nw):
-        kind = rng.choice(["list", "list", "dict", "vec", "bytes", "nested", "rows", "dictrows"])
-        base = "dict" if kind == "dictrows" else ("list" if kind in ("nested", "rows") else kind)
+        kind = rng.choice(["list", "list", "dict", "vec", "bytes", "nested", "rows", "dictrows", "field"])
+        base = "dict" if kind == "dictrows" else ("list" if kind in ("nested", "rows", "field") else kind)
         n = rng.choice([2000, 4000, 8000]) * (10 if kind == "bytes" else 1)
         eb = KINDS[base][0]
-        stmts = [{"op": {"nested": "nested", "rows": "nestedd", "dictrows": "nestedd"}.get(kind, "flat"), "v": "x"}]
+        nstack = sum(1 for q in plans if q["kind"] == "stack")
+        if nstack < 4 or rng.random() < 0.15:
+            # a list used as a stack: grown in bulk, popped in bulk down to a length next to a power of two
+            # (where capacity policies have their boundaries), then single appends / pops around it
+            top = rng.randint(1500, 9000)
+            pw = 2 ** rng.randint(8, top.bit_length() - 1)
+            # (the first four land one below the power of two: the classic boundary of a halving policy)
+            land = max(4, pw + (-1 if nstack < 4 else rng.choice([-2, -1, -1, 0, 1])))
+            stmts = [{"op": "flat", "v": "x"}, {"op": "opassign", "v": "x", "times": top, "var": 0},
+                     {"op": "pop", "v": "x", "times": top - land, "var": 0}]
+            amp = 2 + nstack % 2 if nstack < 4 else rng.choice([1, 2, 2, 3])
+            for _ in range(rng.randint(25, 45) if tier == "quick" else rng.randint(40, 80)):
+                stmts += [{"op": "opassign", "v": "x", "var": 0}] * amp + [{"op": "pop", "v": "x", "var": 0}] * amp
+            srcs = redeclare_safe([render(s, "list", 0) for s in stmts])
+            cases.append({"id": len(cases), "steps": [{"src": s} for s in srcs]})
+            plans.append(dict(stmts=stmts, n=0, eb=48, kind="stack"))
+            continue
+        stmts = [{"op": {"nested": "nested", "rows": "nestedd", "dictrows": "nestedd", "field": "field"}.get(kind, "flat"), "v": "x"}]
         k = rng.randint(60, 200) if tier == "thorough" else rng.randint(40, 90)
         aliased_at = set(rng.sample(range(1, k), rng.choice([0, 1, 1, 2])))
         for j in range(1, k):
             if j in aliased_at:
                 stmts.append({"op": "alias", "v": "y", "w": "x"})
                 continue
-            if kind in ("rows", "dictrows"):
-                forms = ["opassign2", "opassign2", "set2"] if kind == "rows" else ["opassign2"]
+            if kind in ("rows", "dictrows", "field"):
+                forms = ["opassign2"] if kind == "dictrows" else ["opassign2", "opassign2", "set2"]
             else:
                 forms = ["set", "opassign"] + (["pop"] if base == "list" else []) + (["set2", "set2", "opassign2"] if kind == "nested" else [])
             f = rng.choice(forms)
             s = {"op": f, "v": rng.choice(["x", "x", "x", "y"]) if any(t["op"] == "alias" for t in stmts) else "x"}
             if f in ("set2", "opassign2"):
-                s["i"] = rng.randint(1, 3)
+                s["i"] = 1 if kind == "field" else rng.randint(1, 3)
+                s["field"] = kind == "field"
+            s["var"] = rng.randrange(nvariants(base, f)) if kind != "dictrows" else 0
+            s["nested"] = kind in ("nested", "rows")
             stmts.append(s)
         srcs = redeclare_safe([render(s, base, n) for s in stmts])
         cases.append({"id": len(cases), "steps": [{"src": s} for s in srcs]})
@@ -173,11 +227,18 @@ def drive(rep, tier, seed):
         st = res[c["id"]]
         events.append({"ev": "reset"})
         info.append(None)
+        cur = high = p["n"]
         for j, s in enumerate(p["stmts"]):
+            # the length of the collection so far (bulk statements change it a lot): the amortised
+            # allowance of the workload is one doubling of the LARGEST buffer
+            t = s.get("times", 1)
+            cur += t if s["op"] == "opassign" else (-t if s["op"] == "pop" else 0)
+            high = max(high, cur)
             if j >= len(st) or st[j].get("o") != "ok":
                 # a failing statement (pop of an emptied list ...) ends the workload: no allocation claim is made for it
                 break
-            events.append({"ev": "stmt", "s": dict(s, w=s.get("w", ""), i=s.get("i", 1)), "n": p["n"], "r": 3,
+            ev_s = dict(op="nestedd" if s["op"] == "field" else s["op"], v=s["v"], w=s.get("w", ""), i=s.get("i", 1))
+            events.append({"ev": "stmt", "s": ev_s, "n": high, "times": t, "r": 1 if p["kind"] == "field" else 3,
                            "eb": 48 if p["kind"] == "dictrows" else p["eb"], "bytes": st[j].get("alloc", 0),
                            "growth": s["op"] in ("opassign", "opassign2")})
             info.append(dict(src=c["steps"][j]["src"], kind=p["kind"], n=p["n"], case=c["id"], step=j, op=s["op"]))
